@@ -10,7 +10,7 @@ use crate::runner::*;
 use crate::tape::{Fp, Tape};
 use core::ffi::c_uint;
 
-pub const RULE: &str = "tape -> dictionary (len 0, 1.., w-263..w+1, 2w, 40000, 100000; made of pieces of the data, random or small alphabet) x input x DeflateConfig x flow {zlib: set before first call; raw: set before first call; raw: set mid-stream at a completed SYNC/FULL flush on both sides; gzip: must be refused} x chunkings x points at which deflateGetDictionary / inflateGetDictionary are called; also Deflate::set_dictionary / Inflate::set_dictionary / NeedDict{dict_id}. Oracle (model strings + bitwise Adler-32): zlib header has FDICT and DICTID = Adler-32(dict); inflate returns NEED_DICT reporting that value before any output; inflateSetDictionary with a dictionary of different Adler-32 -> DATA_ERROR, with a DIFFERENT dictionary of the SAME Adler-32 (+1,-2,+1 tweak) -> OK, with the right one -> OK and the output equals the input; raw round trip with the dictionary on both sides; inflateGetDictionary = last min(|dict||output|, 32768) bytes exactly; deflateGetDictionary = a suffix of dict||consumed input, of full length if that is <= w else between w-262 and w. Non-trivial = dictionary >= 1 byte and (a match reaches into the dictionary, or dict > window, or get-dictionary after the window slid); distinct by case fingerprint.";
+pub const RULE: &str = "tape -> dictionary (len 0, 1.., w-263..w+1, 2w, 40000, 100000; made of pieces of the data, random or small alphabet) x input x DeflateConfig x flow {zlib: set before first call; raw: set before first call; raw: set mid-stream at a completed SYNC/FULL flush on both sides; gzip: must be refused} x chunkings x points at which deflateGetDictionary / inflateGetDictionary are called; also Deflate::set_dictionary / Inflate::set_dictionary / NeedDict{dict_id}. Oracle (model strings + bitwise Adler-32): zlib header has FDICT and DICTID = Adler-32(dict); inflate returns NEED_DICT reporting that value before any output; inflateSetDictionary with a dictionary of different Adler-32 -> DATA_ERROR, with a DIFFERENT dictionary of the SAME Adler-32 (+1,-2,+1 tweak) -> OK, with the right one -> OK and the output equals the input; the same stream fed again after inflateReset demands, verifies and uses the dictionary again; raw round trip with the dictionary on both sides; inflateGetDictionary = last min(|dict||output|, 32768) bytes exactly; deflateGetDictionary = a suffix of dict||consumed input, of full length if that is <= w else between w-262 and w. Non-trivial = dictionary >= 1 byte and (a match reaches into the dictionary, or dict > window, or get-dictionary after the window slid); distinct by case fingerprint.";
 
 fn same_adler_variant(d: &[u8]) -> Option<Vec<u8>> {
     for i in 0..d.len().saturating_sub(2) {
@@ -355,6 +355,7 @@ pub fn case(tape: &[u8], ctx: &Ctx) -> Outcome {
             let mut ngets = 0;
             let mut guard = 0usize;
             let mut done = false;
+            let mut asked1 = false;
             while !done {
                 guard += 1;
                 if guard > 400_000 {
@@ -378,6 +379,7 @@ pub fn case(tape: &[u8], ctx: &Ctx) -> Outcome {
                     Z_OK | Z_BUF_ERROR => {}
                     Z_STREAM_END => done = true,
                     Z_NEED_DICT => {
+                        asked1 = true;
                         let rc = unsafe { Rs::inflateSetDictionary(&mut strm, dp, dict.len() as c_uint) };
                         if rc != Z_OK {
                             o.fail("inflateSetDictionary/status", format!("right dictionary after NEED_DICT answered with {}", rc_name(rc)));
@@ -430,6 +432,59 @@ pub fn case(tape: &[u8], ctx: &Ctx) -> Outcome {
                     }
                     o.class("inflateGetDictionary checked");
                 }
+            }
+            if done && out == data && cfg.wrap == Wrap::Zlib && asked1 {
+                // a reused stream: after inflateReset the same zlib stream must demand its dictionary again
+                // (reporting the same id, before any output), accept it again and reproduce the data again
+                let rrc = unsafe { Rs::inflateReset(&mut strm) };
+                let mut out2: Vec<u8> = Vec::new();
+                let mut ipos = 0usize;
+                let mut asked = false;
+                let mut end2 = false;
+                let oc = (ar.out.cap - 64).min(1 << 20);
+                let mut guard = 0;
+                while rrc == Z_OK && guard < 10_000 {
+                    guard += 1;
+                    let end = (ipos + ar.inp.cap.min(1 << 20)).min(comp.len());
+                    strm.next_in = ar.inp.put_right(&comp[ipos..end]);
+                    strm.avail_in = (end - ipos) as u32;
+                    let op = ar.out.right(oc);
+                    strm.next_out = op;
+                    strm.avail_out = oc as u32;
+                    let rc = unsafe { Rs::inflate(&mut strm, Z_NO_FLUSH) };
+                    let din = (end - ipos) - strm.avail_in as usize;
+                    let dout = oc - strm.avail_out as usize;
+                    ipos += din;
+                    out2.extend_from_slice(unsafe { core::slice::from_raw_parts(op, dout) });
+                    match rc {
+                        Z_NEED_DICT if !asked => {
+                            asked = true;
+                            if !out2.is_empty() || strm.adler as u32 != dict_id {
+                                o.fail("reuse/need-dict-id", format!("after inflateReset: NEED_DICT reported adler {:#010x} (dictionary id {:#010x}) after {} output bytes", strm.adler, dict_id, out2.len()));
+                                break;
+                            }
+                            let rc = unsafe { Rs::inflateSetDictionary(&mut strm, dp, dict.len() as c_uint) };
+                            if rc != Z_OK {
+                                o.fail("reuse/inflateSetDictionary-status", format!("after inflateReset: right dictionary after NEED_DICT answered with {}", rc_name(rc)));
+                                break;
+                            }
+                        }
+                        Z_OK | Z_BUF_ERROR if din + dout > 0 => {}
+                        Z_STREAM_END => {
+                            end2 = true;
+                            break;
+                        }
+                        _ => break,
+                    }
+                }
+                if o.fail.is_none() && (rrc != Z_OK || !asked || !end2 || out2 != data) {
+                    o.fail("reuse/dictionary-not-demanded-again", format!("zlib stream with FDICT decoded a second time after inflateReset (rc {}): NEED_DICT seen {}, stream end {}, {} of {} bytes reproduced; {}", rc_name(rrc), asked, end2, out2.len(), data.len(), cfg.describe()));
+                }
+                if o.fail.is_some() {
+                    unsafe { Rs::inflateEnd(&mut strm) };
+                    return;
+                }
+                o.class("zlib: stream reused after inflateReset demands the dictionary again");
             }
             unsafe { Rs::inflateEnd(&mut strm) };
             if !done || out != data {
